@@ -114,10 +114,12 @@ Theorem C16_rendered_file_partial :
 Proof. exact p_rendered_partial. Qed.
 Print Assumptions C16_rendered_file_partial.
 
-(* (1) refuted (finding F-LOOKUP-SUBDIR-NAME): user dir {sub/StructureType.j2, CompositeType.j2}, package {StructureType.j2}:
-   type_to_template chooses sub/StructureType.j2, .name drops the directory; FIND_ALL renders the PACKAGE's StructureType.j2,
-   FIND_FIRST raises TemplateNotFound; the property designates the user's CompositeType.j2 *)
-Theorem C16_rendered_file_refuted_subdir :
+(* (1) refuted (finding F-LOOKUP-SUBDIR-NAME) AS LONG AS type_to_template indexes the templates of sub-directories -- a fact
+   regenerated from /repo (g_index_top_level_only = false; p_flatb is `g_index_top_level_only || ...`): user dir
+   {sub/StructureType.j2, CompositeType.j2}, package {StructureType.j2}: type_to_template chooses sub/StructureType.j2, .name drops
+   the directory; FIND_ALL renders the PACKAGE's StructureType.j2, FIND_FIRST raises TemplateNotFound; the property designates the
+   user's CompositeType.j2 *)
+Theorem C16_rendered_file_refuted_subdir : g_index_top_level_only = false ->
   p_lookup_seq false FIND_ALL (Some [[f_sub_struct; f_comp]]) (Some [f_struct]) [g_cls_StructureType] = [Some f_sub_struct] /\
   p_rendered_seq false FIND_ALL (Some [[f_sub_struct; f_comp]]) (Some [f_struct]) [g_cls_StructureType] = [Rendered OPkg f_struct] /\
   p_rendered_seq false FIND_FIRST (Some [[f_sub_struct; f_comp]]) (Some [f_struct]) [g_cls_StructureType] = [NotFound f_struct] /\
@@ -125,6 +127,19 @@ Theorem C16_rendered_file_refuted_subdir :
   p_flatb FIND_FIRST (Some [[f_sub_struct; f_comp]]) (Some [f_struct]) = false.
 Proof. exact subdir_name_refuted. Qed.
 Print Assumptions C16_rendered_file_refuted_subdir.
+
+(* ... and once only top-level templates are indexed (design_notes/C16_subdir_name_fix.patch) condition (1) of the partial theorem
+   holds for EVERY input (p_flatb = true by definition) and the witness renders what the property designates *)
+Theorem C16_rendered_file_subdir_fixed : g_index_top_level_only = true ->
+  (forall pol dirs pkg, p_flatb pol dirs pkg = true) /\
+  p_lookup_seq false FIND_FIRST (Some [[f_sub_struct; f_comp]]) (Some [f_struct]) [g_cls_StructureType] = [Some f_comp] /\
+  p_rendered_seq false FIND_FIRST (Some [[f_sub_struct; f_comp]]) (Some [f_struct]) [g_cls_StructureType] = [Rendered (OUserDir 0) f_comp] /\
+  p_spec_rendered FIND_FIRST (Some [[f_sub_struct; f_comp]]) (Some [f_struct]) g_cls_StructureType = Rendered (OUserDir 0) f_comp.
+Proof.
+  intros H. split; [|exact (subdir_name_fixed H)].
+  intros pol dirs pkg. unfold p_flatb. destruct (mk_loaders pol dirs pkg). rewrite H. reflexivity.
+Qed.
+Print Assumptions C16_rendered_file_subdir_fixed.
 
 (* (2) refuted (finding F-LOOKUP-USER-GENERAL-FIRST; reading-dependent, DESIGN section 5 C16): under FIND_ALL a user CompositeType.j2
    is rendered for a structure although the package has StructureType.j2 *)
